@@ -1716,6 +1716,10 @@ func runConstruction(t *testing.T, rng *rand.Rand) {
 		h.st = st
 		defer st.Close()
 	}
+	if !sameStrings(cfg.Secrets, secrets) {
+		// the caller still holds this slice: a retry with the same configuration must see the same names (F11)
+		h.bad("NewStore modified the caller's configuration: Secrets was %q and is now %q", secrets, cfg.Secrets)
+	}
 	if wantErr != "" {
 		if err == nil {
 			h.bad("NewStore succeeded although %s", wantErr)
